@@ -452,66 +452,57 @@ func c05RefreshLazy(c *core.Ctx, r *core.Report, refresh *ssa.Function, site ssa
 }
 
 func c05ShortCircuit(c *core.Ctx, r *core.Report, l *lifecycleRoles) {
-	ev := l.ev
-	// the after-init role function: the in-scope function that invokes PostProcessAfterInitialization
 	ro := c.Roles()
-	afters := c.Invokers(ro.CPAfterInit)
-	if len(afters) != 1 {
-		r.Undecided("C05.R7", "role:AfterInit", "", fmt.Sprintf("expected one function invoking PostProcessAfterInitialization, found %d", len(afters)))
+	subs := lowestReaching(c, "container/factory",
+		func(com *ssa.CallCommon) bool { return core.IsInvoke(com, ro.IABeforeInst) },
+		func(com *ssa.CallCommon) bool { return core.IsInvoke(com, ro.CPAfterInit) })
+	if !r.Exactly("C05.R7", "before-instantiation resolvers (smallest function reaching PostProcessBeforeInstantiation and PostProcessAfterInitialization)", len(subs), 1) {
 		return
 	}
-	after := afters[0]
-	for _, fn := range c.Scope {
-		for _, ci := range core.Calls(fn) {
-			if !core.IsCallTo(ci.Common(), after) || fn == l.initFn {
-				continue
-			}
-			cons := "short-circuit@" + core.FnName(fn)
-			// guarded by non-nil result of a BEFORE_INST-reaching call
-			ok := false
-			for _, g := range core.Guards(ci.Block()) {
-				b, isB := g.If.Cond.(*ssa.BinOp)
-				if !isB {
-					continue
-				}
-				var v ssa.Value
-				if core.IsNilConst(b.Y) {
-					v = b.X
-				} else if core.IsNilConst(b.X) {
-					v = b.Y
-				}
-				if v == nil || !isNilTestOf(g, v, false) {
-					continue
-				}
-				for _, o := range core.Origins(v, nil) {
-					if ex, isEx := o.(*ssa.Extract); isEx {
-						if call, isCall := ex.Tuple.(*ssa.Call); isCall && ev.SiteReach(call).has(evBeforeInst) {
-							ok = true
-						}
-					}
-				}
-			}
-			r.Check(ok, "C05.R7", cons, c.Pos(ci.Pos()), "after-initialization callbacks outside the normal path run only for an object a before-instantiation callback produced")
-		}
+	resolver := subs[0]
+	maxProcs := 2
+	if r.Tier == "thorough" {
+		maxProcs = 3
 	}
-	// in the creator chain: the site reaching PROPS lies on the nil edge of the resolver's result
-	for _, fn := range c.StaticCalleesInPkg(l.creator, map[*ssa.Function]bool{l.exposer: true}) {
-		res := ev.SitesReaching(fn, evBeforeInst)
-		norm := ev.SitesReaching(fn, evProps)
-		if len(res) == 0 || len(norm) == 0 {
-			continue
-		}
-		for _, rs := range res {
-			for _, ns := range norm {
-				if rs == ns {
-					continue
+	cons := "resolver-table@" + core.FnName(resolver)
+	rrs, n, und := resolverTable(c, resolver, maxProcs)
+	r.Count("resolver_table_runs", n)
+	if und != "" {
+		r.Undecided("C05.R7", cons, c.FnPos(resolver), "abstract interpretation left the model: "+und)
+	} else {
+		smallModelCheck(c, r, "C05.R7", cons, resolver, int64(maxProcs))
+		rrs.report(c, r, resolver, func(string) string { return "C05.R7" }, cons, resolverRows)
+	}
+	// after-initialization callbacks have exactly two entry points: the initialization routine and the resolver
+	for _, s := range c.CallSites(func(com *ssa.CallCommon) bool { return core.IsInvoke(com, ro.CPAfterInit) }) {
+		fn := core.TopLevel(s.Parent())
+		okFn := withinRole(c, fn, func(g *ssa.Function) bool { return g == resolver || g == l.initFn }, 3)
+		if !okFn {
+			// a dispatch helper shared by both
+			callers := c.Callers(fn)
+			okFn = len(callers) > 0
+			for _, cl := range callers {
+				if !withinRole(c, core.TopLevel(cl), func(g *ssa.Function) bool { return g == resolver || g == l.initFn }, 3) {
+					okFn = false
 				}
-				v := core.ResultValue(rs, 0)
-				r.Check(core.OnNilErrEdge(rs, ns) && core.OnNilEdge(v, ns), "C05.R7", "normal-path-only-without-short-circuit@"+core.FnName(fn), c.Pos(ns.Pos()),
-					"the normal life cycle runs only when the before-instantiation resolver succeeded and produced nothing (no component goes through both paths)")
 			}
 		}
+		r.Check(okFn, "C05.R7", "after-init-entry@"+core.FnName(fn), c.Pos(s.Pos()), "after-initialization callbacks are dispatched only from the initialization routine and the before-instantiation resolver")
 	}
+	// the creator path: resolver first, the normal life cycle only if it produced nothing
+	callers := c.Callers(resolver)
+	if !r.Exactly("C05.R7", "callers of the before-instantiation resolver", len(callers), 1) {
+		return
+	}
+	path := callers[0]
+	pcons := "creator-path-table@" + core.FnName(path)
+	prs, n2, und2 := creatorPathTable(c, path, resolver, l.exposer)
+	r.Count("creator_path_table_runs", n2)
+	if und2 != "" {
+		r.Undecided("C05.R7", pcons, c.FnPos(path), "abstract interpretation left the model: "+und2)
+		return
+	}
+	prs.report(c, r, path, func(string) string { return "C05.R7" }, pcons, creatorPathRows)
 }
 
 // populateRules reports the populator's decision table under the given rule ids.
